@@ -119,6 +119,21 @@ def props_check(prop_file, timeout=900):
                 log=out[-4000:])
 
 
+def coqchk(prop_file, timeout=1500):
+    """independent re-check of the compiled Props file and everything it depends on with coqchk; returns dict(ok, axioms, log)"""
+    rc, out, _ = sh(["coqchk", "-silent", "-o", "-Q", "theories", "EXV", f"EXV.Props.{prop_file}"], timeout, cwd=COQ)
+    text = out or ""
+    m = re.search(r"\* Axioms:(.*?)\n\s*\n\* Constants/Inductives relying on type-in-type:(.*?)\n\s*\n\* Constants/Inductives relying on unsafe \(co\)fixpoints:(.*?)\n\s*\n"
+                  r"\* Inductives whose positivity is assumed:(.*?)\n", text, re.S)
+    if rc != 0 or not m:
+        return dict(ok=False, axioms=[], log=text[-2000:])
+    parts = [x.strip() for x in m.groups()]
+    axioms = [] if parts[0] == "<none>" else [a.strip() for a in parts[0].split("\n") if a.strip()]
+    unsafe = [x for x in parts[1:] if x != "<none>"]
+    bad = [a for a in axioms if a.split(":")[0].strip() not in ALLOWED_AXIOMS]
+    return dict(ok=(not bad and not unsafe), axioms=axioms, log=text[-1500:])
+
+
 def build_model(timeout=900):
     """Extract the model (Exec/Extract.vo) and compile the OCaml driver.  Returns (ok, log)."""
     ok, out = coq_make(["Exec/Extract.vo"], timeout=timeout)
